@@ -427,6 +427,10 @@ pub fn copy_range_into_slice<T: Clone>(
         })
         .collect();
 
+    // Check that every element of the output will be initialized.
+    let sliced_len: usize = index_ranges.iter().map(|r| r.steps()).product();
+    assert_eq!(dest.len(), sliced_len, "output too short");
+
     copy_range_into_slice_inner(src, dest, &index_ranges);
 }
 
@@ -466,9 +470,10 @@ fn copy_range_into_slice_inner<T: Clone>(
         }
     } else {
         // Iterate over views of outermost dimension and recurse.
+        let inner_sliced_len: usize = ranges[1..].iter().map(|s| s.steps()).product();
         for i0 in ranges[0] {
             let src_slice = src.slice(i0);
-            let (dest_slice, dest_tail) = dest.split_at_mut(src_slice.len());
+            let (dest_slice, dest_tail) = dest.split_at_mut(inner_sliced_len);
 
             copy_range_into_slice_inner(src_slice, dest_slice, &ranges[1..]);
 
